@@ -75,7 +75,9 @@ static void emit_api(void)
  * line of each goes into a comment.  Cbuf/IntExprs.lean classifies each of them (which bound keeps it
  * inside a C int) and Props/C13.lean proves that the classification covers this list
  * (`int_exprs_covered`) -- an expression ADDED to cbuf.c breaks the build of the theorems instead of
- * silently escaping `index_arithmetic_no_overflow`.  Comments and preprocessor lines are blanked;
+ * silently escaping `index_arithmetic_no_overflow`.  The list is keyed by the statement text alone
+ * (sorted, distinct): moving code into another function is not a new expression.  Comments and
+ * preprocessor lines are blanked;
  * a unary minus (`-1`, `return(-1)`) is not arithmetic. */
 static char *slurp_c(const char *rel, long *pn)
 {
@@ -129,15 +131,16 @@ static int has_arith(const char *s, long n)
     }
     return 0;
 }
+static int cmp_str(const void *a, const void *b) { return strcmp(*(char *const *) a, *(char *const *) b); }
 static void emit_int_exprs(void)
 {
     long n, i, start = 0, line = 1, sline = 1;
     char *txt = slurp_c("src/pdsh/cbuf.c", &n);
-    char fn[128] = "", seen[400][512], cmt[1 << 15];
-    int depth = 0, paren = 0, nseen = 0, k = 0;
+    static char stmts[600][512], cmt[1 << 16];
+    char fn[128] = "", *order[600];
+    int depth = 0, paren = 0, ns = 0, k = 0, q;
     size_t cl = 0;
     cmt[0] = 0;
-    printf("def CBUF_INT_EXPRS : List (String × String) := [");
     for (i = 0; i < n; i++) {
         int c = (unsigned char) txt[i];
         if (c == '\n') line++;
@@ -147,27 +150,20 @@ static void emit_int_exprs(void)
             while (is_id((unsigned char) txt[j])) j++;
             e = j;
             while (isspace((unsigned char) txt[j])) j++;
-            if (txt[j] == '(' && e - i < (long) sizeof fn) { memcpy(fn, txt + i, e - i); fn[e - i] = 0; nseen = 0; }
+            if (txt[j] == '(' && e - i < (long) sizeof fn) { memcpy(fn, txt + i, e - i); fn[e - i] = 0; }
         }
         if (c == '(') paren++;
         if (c == ')') paren--;
         if ((c == '{' || c == '}' || c == ';') && paren == 0) {
-            if (depth >= 1 && has_arith(txt + start, i - start)) {
-                char s[512];
+            if (depth >= 1 && ns < 600 && has_arith(txt + start, i - start)) {
+                char *s = stmts[ns];
                 long j, m = 0;
-                int dup = 0, q;
-                for (j = start; j < i && m < (long) sizeof s - 1; j++)
+                for (j = start; j < i && m < 511; j++)
                     if (!isspace((unsigned char) txt[j])) s[m++] = txt[j];
                 s[m] = 0;
-                for (q = 0; q < nseen; q++) if (strcmp(seen[q], s) == 0) dup = 1;
-                if (!dup && nseen < 400) {
-                    strcpy(seen[nseen++], s);
-                    printf("%s\n  (\"%s\", \"", k++ ? "," : "", fn);
-                    for (j = 0; j < m; j++) { if (s[j] == '"' || s[j] == '\\') putchar('\\'); putchar(s[j]); }
-                    printf("\")");
-                    cl += snprintf(cmt + cl, sizeof cmt - cl, "--   %s:%ld  %s\n", fn, sline, s);
-                    if (cl >= sizeof cmt) cl = sizeof cmt - 1;
-                }
+                order[ns++] = s;
+                cl += snprintf(cmt + cl, sizeof cmt - cl, "--   %s:%ld  %s\n", fn, sline, s);
+                if (cl >= sizeof cmt) cl = sizeof cmt - 1;
             }
             if (c == '{') depth++;
             if (c == '}') depth--;
@@ -178,7 +174,18 @@ static void emit_int_exprs(void)
             sline = line;
         }
     }
-    printf("]\n-- source lines of the statements above (cbuf.c of the tree under test):\n%s", cmt);
+    /* the key is the statement alone, sorted and distinct: moving code between functions or
+     * re-ordering functions changes nothing; a statement never seen before does */
+    qsort(order, ns, sizeof order[0], cmp_str);
+    printf("def CBUF_INT_EXPRS : List String := [");
+    for (q = 0; q < ns; q++) {
+        const char *s = order[q];
+        if (q > 0 && strcmp(order[q - 1], s) == 0) continue;
+        printf("%s\n  \"", k++ ? "," : "");
+        for (; *s; s++) { if (*s == '"' || *s == '\\') putchar('\\'); putchar(*s); }
+        printf("\"");
+    }
+    printf("]\n-- where they occur (function:line of the cbuf.c under test):\n%s", cmt);
     if (k == 0) { fprintf(stderr, "no arithmetic found in cbuf.c\n"); exit(1); }
     free(txt);
 }
